@@ -6,3 +6,6 @@ from ..core import modules_for
 def run(ctx):
     q = ctx.tier == "quick"
     run_common(ctx, "C11", modules_for("C11"), stride=2 if q else 1, l1_scripts=250 if q else 2500)
+    if not getattr(ctx, "replay", None):
+        from .. import rawsnap
+        rawsnap.run(ctx, "C11")      # sf_write_raw in auto-header mode: every image is a valid file with the frames written so far
